@@ -173,7 +173,9 @@ func (in *Interp) sprintf(format string, args []Value) (string, error) {
 				return "", unsupported("printf of a non-finite number")
 			}
 			if (conv == 'g' || conv == 'G') && !hasPrec {
-				return "", unsupported("printf %%g without precision")
+				// C's default precision is 6 (Go's would be the shortest form); goawk follows C since d2a9df0
+				out.WriteString(fmt.Sprintf(spec+".6"+string(conv), f))
+				break
 			}
 			out.WriteString(fmt.Sprintf(spec+string(conv), f))
 		default:
